@@ -31,6 +31,8 @@ type Feat struct {
 	Slow          bool
 	VisStr        float64 // probability weight of Visualize/String ops
 	Catalog       bool
+	MalRate    float64 // probability of inserting a call from the malformed grammar before an op
+	MalTagsOnly bool
 	DecoIntroduce bool // allow decorators for keys nobody provides (DESIGN §9 R3)
 }
 
@@ -535,6 +537,28 @@ type Mix struct{ Scope, Provide, Decorate, Invoke, VisStr int }
 func (g *genCtx) randomOps(n int, mx Mix) {
 	total := mx.Scope + mx.Provide + mx.Decorate + mx.Invoke + mx.VisStr
 	for len(g.h.Ops) < n {
+		if g.ft.MalRate > 0 && g.r.P(g.ft.MalRate) {
+			m := GenMal(g.r)
+			if g.ft.MalTagsOnly {
+				for m.Kind != "in-tag" && m.Kind != "out-tag" && m.Kind != "unexported-field" {
+					m = GenMal(g.r)
+				}
+			}
+			sc := g.pickScope()
+			g.addOp(Op{Kind: OpMalformed, Scope: sc, Mal: m})
+			if m.API != "invoke" && !g.ft.MalTagsOnly {
+				// follow up with probes so that whatever the call left
+				// behind is exercised
+				for g.r.P(0.5) {
+					ps := sc
+					if g.r.P(0.3) {
+						ps = g.pickScope()
+					}
+					g.addOp(Op{Kind: OpMalformed, Scope: ps, Mal: &Mal{API: "invoke", Kind: "probe", Arg: g.r.Intn(1 << 16)}})
+				}
+			}
+			continue
+		}
 		x := g.r.Intn(total)
 		switch {
 		case x < mx.Scope:
